@@ -169,6 +169,13 @@ def main():
 
     def custom(k):
         return T.CustomTransform(lambda x, k=k: tabs[k - 1][x], lambda y, k=k: invtabs[k - 1][y])
+    line = res2.printed("PARTIAL")[0]
+    pf = json.loads(line[line.index('"[') + 1: line.rindex(']"') + 1])
+    UNDEF = 99
+    pf_tab = jnp.asarray([float(v) for v in pf] + [float("nan")] * (6 - len(pf)))
+    pinv_tab = jnp.asarray([float(pf.index(y)) if y in pf else float("nan") for y in range(6)])
+    partial = T.CustomTransform(lambda x: pf_tab[jnp.asarray(x, dtype=int)], lambda y: pinv_tab[jnp.asarray(y, dtype=int)])
+    tokf = lambda a: [UNDEF if math.isnan(float(q)) else int(q) for q in a]
     nstruct = 0
     for line in res2.printed("TF"):
         o = json.loads(line[line.index('"{') + 1: line.rindex('}"') + 1].replace('\\"', '"'))
@@ -180,6 +187,13 @@ def main():
             val = o["val"] if isinstance(o["val"], list) else [o["val"][str(i)] for i in range(4)]
             want = [list(v) for v in val]
             gotj = [[int(a), int(b)] for a, b in zip(jax.jit(ch.forward)(xs), jax.jit(ch.inverse)(xs))]
+        elif o["kind"] == "pmask":
+            m, v = o["obj"]
+            mt = T.MaskedTransform(jnp.asarray(m), partial)
+            vv = jnp.asarray([float(q) for q in v])
+            got = [tokf(mt.forward(vv)), tokf(mt.inverse(vv))]
+            want = [list(o["val"][0]), list(o["val"][1])]
+            gotj = [tokf(jax.jit(mt.forward)(vv)), tokf(jax.jit(mt.inverse)(vv))]
         elif o["kind"] == "mask":
             m, k, v = o["obj"]
             mt = T.MaskedTransform(jnp.asarray(m), custom(k))
@@ -199,6 +213,23 @@ def main():
         if got != want or gotj != want:
             chk.violation({"structure": o["kind"], "what": "composition / masking / pytree routing differs from Transforms.tla"},
                           {"obj": o["obj"], "got": got, "got_jit": gotj, "want": want})
+    # the same statement on the real transforms: an excluded entry passes through forward and inverse unchanged even where the
+    # inner inverse does not exist (outside the declared range), an included one is transformed as by the inner transform alone
+    for name, inner, inside in (("sigmoid", T.SigmoidTransform(0.0, 1.0), 0.25), ("softplus", T.SoftplusTransform(0.0), 0.5),
+                                ("negsoftplus", T.NegSoftplusTransform(0.0), -0.5), ("affine", T.AffineTransform(2.0, 1.0), 0.3)):
+        for mask in ([False, True, False], [True, False, False], [False, False, True]):
+            vals = [-70.0, 3.0e3, -1e-3]
+            vals[mask.index(True)] = inside
+            vv = jnp.asarray(vals)
+            mt = T.MaskedTransform(jnp.asarray(mask), inner)
+            for fn, ref, tag in ((mt.forward, inner.forward, "forward"), (mt.inverse, inner.inverse, "inverse"),
+                                 (jax.jit(mt.forward), inner.forward, "forward_jit"), (jax.jit(mt.inverse), inner.inverse, "inverse_jit")):
+                out = np.asarray(fn(vv), dtype=float)
+                want = np.where(np.asarray(mask), np.asarray(ref(vv), dtype=float), np.asarray(vals))
+                nstruct += 1
+                if not np.array_equal(out, want, equal_nan=True):
+                    chk.violation({"structure": "mask", "transform": name, "what": "masked %s does not pass excluded entries through" % tag.split("_")[0]},
+                                  {"mask": mask, "input": vals, "got": out.tolist(), "want": want.tolist(), "mode": tag})
     if nstruct < 100:
         raise C.MachineryError("Transforms.tla emitted only %d objects" % nstruct)
     chk.set("evaluations", evals + nstruct)
